@@ -24,3 +24,14 @@ Proof.
   - apply N.leb_le. vm_compute. reflexivity.
   - vm_compute. reflexivity.
 Qed.
+
+(* skipped declarations whose quoted literals contain '>' and the other quote: a cut inside such a
+   declaration, inside a literal or not, is rejected like any other *)
+Definition doc4 : bytes :=
+  b "<!DOCTYPE r [<!NOTATION n SYSTEM '>""'><!ATTLIST r a CDATA "">'""><!ENTITY e ""v"">]><r>&e;</r> ".
+
+Example doc4_accepted : is_ok (parse doc4 o) = true.
+Proof. vm_compute. reflexivity. Qed.
+
+Example doc4_all_prefixes : check doc4 = Some (90, []).
+Proof. vm_compute. reflexivity. Qed.
